@@ -168,7 +168,10 @@ C12Reprs(r) ==
        "unsupported repr form", "any") :
      rp \in {<<>>, <<"C">>, <<"Rust">>, <<"u8, C">>, <<"C, u8">>, <<r, r>>, <<"u8", "i16">>, <<r, "align(2)">>, <<"align(2)", r>>,
              <<"u7">>, <<"-">>, <<r, "C">>, <<"C", r>>, <<"transparent">>}}
-C12Count == {Out(r, [item |-> "enum", reprs |-> <<r>>, variants |-> <<>>, count |-> 65535, lim |-> Lim(r)], "65535 variants", "ok") : r \in {"u16", "u64"}}
+\* the limit is a property of the declaration, not of the helper tables: also under feature sets that need no table at all
+C12Count == UNION {{[x EXCEPT !.cfg = cf] : cf \in {AllAuto({"as_str", "try_from"}), AllAuto({}),
+                                                     AllAuto({"into", "try_from", "MIN", "MAX", "next", "next_back", "iter"})}} :
+                   x \in {Out(r, [item |-> "enum", reprs |-> <<r>>, variants |-> <<>>, count |-> 65535, lim |-> Lim(r)], "65535 variants", "ok") : r \in {"u16", "u64"}}}
 C12All(r) == OutAll(C12Items(r) \cup C12Fields(r) \cup C12Exprs(r) \cup C12Values(r) \cup C12Reprs(r))
 
 \* C14: sorted(name) / sorted(value)
